@@ -173,7 +173,7 @@ fn families(thorough: bool) -> Vec<(String, String)> {
             let k = n.min(2000);
             let ps: Vec<String> = (0..k).map(|i| format!("p{}", i)).collect();
             let args: Vec<String> = (0..k).map(|_| "ax".to_string()).collect();
-            format!("macro big({}) -> inc p0 <-\nstart:\nbig({})\n", ps.join(","), args.join(","))
+            format!("macro big({}) -> inc p0 inc p{} inc p{} <-\nstart:\nbig({})\n", ps.join(","), k / 2, k - 1, args.join(","))
         });
         // every macro use builds a parser of its own (about 7 ms): linear, but the sizes are kept small
         add("macro uses", format!("macro m(a) -> inc a dec a <-\nstart:\n{}", rep("m(ax)\n", n.min(if thorough { 1000 } else { 300 }))));
@@ -207,6 +207,10 @@ fn families(thorough: bool) -> Vec<(String, String)> {
         ("non-ASCII before an error on the same line", "start:\nmov ax, \u{e9}\u{e9}\u{e9} @\n"),
         ("non-ASCII in a comment before a run-time message", "start: ; \u{e9}\u{e9}\u{e9}\u{e9}\nprint reg ; \u{fc}\nint 3\n"),
         ("wide characters", "start:\nmov ax, \u{1F600}\n"),
+        ("error on a last line ending in a 2-byte character, no newline", "start:\nmov ax, 5\nmov bx, \u{e9}"),
+        ("error on a last line ending in a 3-byte character, no newline", "start:\nmov ax, 5\nmov bx, \u{20ac}"),
+        ("error on a last line ending in a 4-byte character, no newline", "start:\nmov ax, 5\nmov bx, \u{1F600}"),
+        ("undefined label on a last line ending in a no-break space, no newline", "start:\nmov ax, 5\njmp nowhere\u{a0}"),
         ("only comments", "; nothing\n; at all"),
         ("only a quote", "\""),
         ("only an open brace", "def f {"),
@@ -817,6 +821,21 @@ pub fn run(tier: &Tier) -> i32 {
             cli_verdict(rep, c, "source file / invalid UTF-8", name, b, "", false, 6000, 400_000);
             files.fetch_add(1, Ordering::Relaxed);
         });
+        // (3'') valid programs whose last line ends in multi-byte white space without a newline, single-stepped to the end
+        {
+            let srcs: Vec<String> = vec![
+                "start:\nmov ax, 5\nprint reg\u{a0}".into(),
+                "start:\nmov ax, 5\nmov bx, 6\u{3000}".into(),
+                "start:\nstc\u{2003}".into(),
+                "start:\nmov bl, 0\ndiv bl\u{a0}".into(),
+                "start:\nint 3\nint 3\u{a0}\u{a0}".into(),
+            ];
+            let work: Vec<(usize, bool)> = (0..srcs.len()).flat_map(|k| [(k, false), (k, true)]).collect();
+            work.par_iter().for_each(|(k, interp)| {
+                cli_verdict(rep, c, "source file / last line ends in multi-byte white space", &format!("{:?}{}", srcs[*k], if *interp { " -i" } else { "" }), srcs[*k].as_bytes(), &"n\n".repeat(12), *interp, 6000, 400_000);
+                files.fetch_add(1, Ordering::Relaxed);
+            });
+        }
         // (3') command lines: every argument list of up to 3 (thorough 4) elements over the file, a missing file, a
         //      directory, the documented flag in both spellings, an unknown flag, an empty argument, "--";
         //      stdin closed, one "n", or unreadable
